@@ -405,7 +405,7 @@ class SNum(SVal):
 
     # -- conversions -------------------------------------------------------
     def __hash__(self):
-        return hash(cur().concretize(self))
+        return cur().hash_of(self)
 
     def __index__(self):
         v = cur().concretize(self)
@@ -641,6 +641,8 @@ class Explorer:
 
     # -- per path state ----------------------------------------------------
     def reset_path(self, prefix):
+        self.hash_reps = []
+        self.small = {}
         self.prefix = list(prefix)
         self.trace = []
         self.pending = []
@@ -656,6 +658,7 @@ class Explorer:
     def int(self, name, lo=None, hi=None):
         v = z3.Int(name)
         self.vars[name] = v
+        self.small[name] = lo is not None and hi is not None and hi - lo <= self.MAX_CONCRETIZE
         if lo is not None:
             self.add(v >= lo)
         if hi is not None:
@@ -779,6 +782,34 @@ class Explorer:
             self.pending.append(self.trace[:-1] + [k])
         self.stats.forks += n - 1
         return 0
+
+    def _is_small(self, z):
+        """does the term only mention variables with a declared small finite domain?"""
+        todo, seen = [z], set()
+        while todo:
+            t = todo.pop()
+            if t.get_id() in seen:
+                continue
+            seen.add(t.get_id())
+            if z3.is_const(t) and t.decl().kind() == z3.Z3_OP_UNINTERPRETED:
+                if not self.small.get(t.decl().name(), False):
+                    return False
+            todo.extend(t.children())
+        return True
+
+    def hash_of(self, x):
+        """hash of a symbolic number, consistent with its semantic ==.
+
+        Finite-domain values are concretised (so they meet concrete keys of the same value); any other
+        value gets the hash of its equivalence class on this path: it is compared (decision points) with
+        the representatives hashed so far."""
+        if self._is_small(x.z):
+            return hash(self.concretize(x))
+        for i, rep in enumerate(self.hash_reps):
+            if rep is x or rep.z.get_id() == x.z.get_id() or self.decide(rep.z == x.z):
+                return hash(("symclass", i))
+        self.hash_reps.append(x)
+        return hash(("symclass", len(self.hash_reps) - 1))
 
     def concretize(self, x):
         """Fork over the feasible values of a (finite-domain) symbolic number."""
